@@ -41,6 +41,13 @@ elif k == 'distance':
         d21 = E.distance(Angle(l2), Angle(p2), Angle(l1), Angle(p1))[0]
         if abs(d12 - d21) > 1e-6:
             bad = 'distance not symmetric: %r vs %r' % (d12, d21)
+        if INPUTS.get('equator'):
+            # along the equator the distance is a times the longitude difference (the short way round)
+            dl = abs(l1 - l2) % 360.0
+            dl = min(dl, 360.0 - dl)
+            de = E.distance(Angle(l1), Angle(0.0), Angle(l2), Angle(0.0))[0]
+            if 0.001 < dl < 179.9 and abs(de - ell._a * radians(dl)) > 1e-6 * ell._a:
+                bad = 'equator: longitudes %r, %r: distance %r, a * difference %r' % (l1, l2, de, ell._a * radians(dl))
     except ZeroDivisionError as ex:
         u = (cos(radians(p1)) * cos(radians(l1)), cos(radians(p1)) * sin(radians(l1)), sin(radians(p1)))
         v = (cos(radians(p2)) * cos(radians(l2)), cos(radians(p2)) * sin(radians(l2)), sin(radians(p2)))
@@ -151,6 +158,20 @@ def task_distance(_):
         bad = z3.Or(*[core.lift(x).re() != core.lift(y).re() for x, y in zip(h12, h21)])
         t.decide(ctx, p, 'distance symmetric: its intermediate quantities (s, c, sin^2/cos^2 of F and G) are the same for (A,B) and (B,A)' + tag, bad, 'C18.dist', inp,
                  'symmetry', bd, timeout_ms=120000, retry=False)
+        # the same quantities against Andoyer's definition written on the input directions (half-angle identities):
+        # sin^2(lam) = (1 - cos(l1 - l2))/2,  sin^2 G = (1 - cos(p1 - p2))/2,  cos^2 F = (1 + cos(p1 + p2))/2
+        cl = {n_: (z3.Real('c_' + n_), z3.Real('s_' + n_)) for n_, _lo, _hi in names}
+        cosdl = cl['l1'][0] * cl['l2'][0] + cl['l1'][1] * cl['l2'][1]
+        cosdp = cl['p1'][0] * cl['p2'][0] + cl['p1'][1] * cl['p2'][1]
+        cossp = cl['p1'][0] * cl['p2'][0] - cl['p1'][1] * cl['p2'][1]
+        s2l, c2l = (1 - cosdl) / 2, (1 + cosdl) / 2
+        s2g, c2g = (1 - cosdp) / 2, (1 + cosdp) / 2
+        c2f, s2f = (1 + cossp) / 2, (1 - cossp) / 2
+        want_s, want_c = s2g * c2l + c2f * s2l, c2g * c2l + s2f * s2l
+        t.reach += 1
+        t.decide(ctx, p, 'distance: S and C are Andoyer\'s quantities of the two directions (sin^2 of HALF the longitude difference, whichever way round)' + tag,
+                 z3.Or(core.lift(h12[0]).re() != want_s, core.lift(h12[1]).re() != want_c), 'C18.dist', lambda mo: dict(inp(mo), equator=1), 'Andoyer quantities', bd,
+                 timeout_ms=120000, retry=False)
 
     def fn_tot():
         A = mk()
@@ -160,7 +181,22 @@ def task_distance(_):
     for i, p in enumerate(paths):
         tag = '@tot.p%d' % i
         t.reach += 1
-        if p.kind == 'exc':
+        if p.kind == 'exc' and isinstance(p.exc, ZeroDivisionError):
+            # in real arithmetic the divisor C vanishes for exactly antipodal points; IEEE never gets cos = 0 there, so that
+            # single configuration is outside the model's reach: what must be excluded is a zero divisor for any OTHER pair
+            cl = {n_: (z3.Real('c_' + n_), z3.Real('s_' + n_)) for n_, _lo, _hi in names}
+            dot = (cl['p1'][0] * cl['p2'][0] * (cl['l1'][0] * cl['l2'][0] + cl['l1'][1] * cl['l2'][1]) + cl['p1'][1] * cl['p2'][1])
+            r, mo, _ = core.check(ctx, p, dot > -1, timeout_ms=120000)
+            if r == 'unsat':
+                t.ob('distance: the divisor vanishes only for exactly antipodal points' + tag, 'unsat', 0, bd)
+                t.notes.append('exactly antipodal points (real-arithmetic zero divisor, not reachable with IEEE cosines) are outside the claim')
+                continue
+            if r != 'sat':
+                t.notes.append('distance(): whether the divisor C can vanish for non-antipodal points was answered %s; antipodal points are outside the claim' % r)
+                continue
+            t.ob('distance total (no exception for legal points)' + tag, 'sat', 0, bd)
+            t.cand('C18.dist', inp(mo), 'raised %r' % (p.exc,))
+        elif p.kind == 'exc':
             r, mo, _ = core.check(ctx, p, z3.BoolVal(True), timeout_ms=60000)
             t.ob('distance total (no exception for legal points)' + tag, 'sat', 0, bd)
             t.cand('C18.dist', inp(mo) if mo else {'kind': 'distance', 'l1': ['1', '0'], 'p1': ['1', '0'], 'l2': ['-1', '0'], 'p2': ['1', '0'], 'dot': -1.0},
